@@ -438,9 +438,22 @@ def extract_c2():
             expr = mm.group(1)
             holes = bool(re.search(r"\b[tr]\.1\b", expr))
             idx.append((fn, ln, expr, holes))
-    if not idx:
+    # table-mode parsing of a gapless enum: position in the name table -> discriminant
+    disc = []
+    for fn in ("src/feature/from_str_fn.rs", "src/feature/from_str_trait.rs"):
+        try:
+            lines = open(os.path.join(REPO, fn)).read().split("\n")
+        except OSError:
+            continue
+        for ln, l in enumerate(lines, 1):
+            if "transmute(" not in l or "#ident_min" not in l:
+                continue
+            mm = re.search(r"transmute\(((?:[^()]|\((?:[^()]|\([^()]*\))*\))*)\)", l)
+            if mm:
+                disc.append((fn, ln, mm.group(1)))
+    if not idx and not disc:
         return None
-    return {"entry": entry, "inc": inc.group(1).strip(), "idx": idx}
+    return {"entry": entry, "inc": inc.group(1).strip(), "idx": idx, "disc": disc}
 
 
 def engine_c2(rep, files, M, harness_timeout, reprs=None):
@@ -454,7 +467,8 @@ def engine_c2(rep, files, M, harness_timeout, reprs=None):
         rep.skipped.append({"module": "engine_c2", "what": "index-arithmetic fragments not found in the sources (refactored): layout lemma skipped"})
         return
     idx = [t for t in ex["idx"] if any(f in t[0] for f in files)]
-    if not idx:
+    disc = [t for t in ex.get("disc", []) if any(f in t[0] for f in files)]
+    if not idx and not disc:
         rep.skipped.append({"module": "engine_c2", "what": "no index expression found for %s: layout lemma skipped" % files})
         return
     reprs = reprs or list(C.REPRS)
@@ -468,6 +482,11 @@ def engine_c2(rep, files, M, harness_timeout, reprs=None):
             asserts.append('        if m >= 2 {\n            assert!(idx_%d(x as R, min, t1) == rank, "%s:%d: table index of a variant in a with-holes enum is not its rank");\n        }' % (k, fn, ln))
         else:
             asserts.append('        if m == 1 {\n            assert!(idx_%d(x as R, min, t1) == rank, "%s:%d: table index of a variant in a gapless enum is not its rank");\n        }' % (k, fn, ln))
+    for k, (fn, ln, expr) in enumerate(disc):
+        body = expr.replace("#ident_enum::#ident_min as #repr", "min").replace("Self::#ident_min as #repr", "min")
+        body = body.replace("#repr_unsigned", "U").replace("#repr", "R")
+        fns.append("    /// %s:%d   transmute(%s)\n    #[inline(always)]\n    fn disc_%d(i: usize, min: R) -> Option<R> {\n        Some(%s)\n    }" % (fn, ln, expr, k, body))
+        asserts.append('        if m == 1 {\n            assert!(disc_%d(rank, min) == Some(x as R), "%s:%d: discriminant computed from the name-table position is not the variant\'s");\n        }' % (k, fn, ln))
     lib = ""
     for r in reprs:
         if r not in comp:
@@ -495,7 +514,7 @@ def engine_c2(rep, files, M, harness_timeout, reprs=None):
             continue
         hm = RawModule("c2_" + r)
         sym = ("the run layout itself: up to %d runs with symbolic start/end anywhere in %s (within the i64 domain), symbolic variant; index expressions: %s"
-               % (M, r, ", ".join("%s:%d" % (os.path.basename(t[0]), t[1]) for t in idx)))
+               % (M, r, ", ".join("%s:%d" % (os.path.basename(t[0]), t[1]) for t in idx + disc)))
         cov = ["maximal number of runs", "large index"] + (["negative later run"] if C.REPRS[r][1] else [])
         hm.harnesses.append(E.Harness("h_layout", "", M + 2, "layout_lemma", sym + "; <= min(65534, 2^bits) variants", cov))
         if C.REPRS[r][0] > 8:
@@ -510,7 +529,7 @@ def engine_c2(rep, files, M, harness_timeout, reprs=None):
         return
     results = K.classify(data, out)
     rep.bounds["engine_C2"] = {"runs": M, "reprs": [r for r in reprs if r in comp], "variants": "<= min(65534, 2^bits)",
-                               "fragments": {"entry": ex["entry"], "inc": ex["inc"], "index_expressions": [t[2] for t in idx]}}
+                               "fragments": {"entry": ex["entry"], "inc": ex["inc"], "index_expressions": [t[2] for t in idx + disc]}}
     rep.stubs.append("Engine C2: table entry / offset / index expressions are text fragments of the quote! templates assembled into straight-line Rust; a counterexample layout is confirmed by really deriving an enum with that layout")
     # classification: passes go through collect(); failures are confirmed through the real derive
     fails = {hid: r for hid, r in results.items() if r.status == "fail"}
@@ -583,11 +602,19 @@ def confirm_layout(rep, crate_dir, hid, r, harness_timeout, files, M):
             feats["iter"] = {"mode": itmode}
             feats["range"] = None
             feats["MIN"] = None
+        if "from_str_fn" in files:
+            feats["from_str"] = {"mode": "table"}
+        if "from_str_trait" in files:
+            feats["FromStr"] = {"mode": "table"}
         b = C.Bundle("L", feats)
         mod = E.Module(d, b, prop)
         body = ["let v = SORTED[%d];" % rank]
         if "as_str_fn" in files:
             body.append('assert!(eq_str(E::as_str(v), NAMES[%d]), "as_str(v) is not v\'s name");' % rank)
+        if "from_str_fn" in files:
+            body.append('match E::from_str(NAMES[%d]) {\n    Some(w) => assert!(w as R == v as R, "from_str(name) is another variant"),\n    None => assert!(false, "from_str(name) is None"),\n}' % rank)
+        if "from_str_trait" in files:
+            body.append('match NAMES[%d].parse::<E>() {\n    Ok(w) => assert!(w as R == v as R, "FromStr(name) is another variant"),\n    Err(()) => assert!(false, "FromStr(name) is Err"),\n}' % rank)
         if "range_fn" in files:
             body.append('assert!(E::range(E::MIN, v).len() == %d, "range(MIN, v).len()");' % (rank + 1))
             body.append('assert!(E::range(v, v).len() == 1, "range(v, v).len()");')
